@@ -83,3 +83,37 @@ Fixpoint check_from (cfg : config) (k : case) (s : state) (evs : list event) (os
 
 Definition check_case (k : case) : bool :=
   check_from (mkConfig (k_prefix k) true) k init (k_evs k) (k_obs k).
+
+(* ------------------------------------------------------------------ C19 *)
+
+Record pcase := mkPCase {
+  pk_setup : list event;          (* lease pre-state, as model events *)
+  pk_env : penv;
+  pk_req : list titem;
+  pk_pool : list bytes;           (* resource ids observed afterwards *)
+  pk_have_codes : bool;           (* false for acks = 0 (no response) *)
+  pk_codes : list (list Z);
+  pk_entered : list (list bool);  (* storage path entered, per partition entry *)
+  pk_owns : list bool;            (* handler's manager, per pool resource, after the request *)
+  pk_owns_other : list bool;
+  pk_keys : list Z                (* per pool resource: -1 absent, 0 / 1 = broker "1" / "2", -2 other *)
+}.
+
+Definition broker1 : bytes := [49].
+Definition broker2 : bytes := [50].
+Definition partition_prefix : bytes := codes "/kafscale/partition-leases".
+
+Definition check_pcase (k : pcase) : bool :=
+  let cfg := mkConfig partition_prefix true in
+  let s0 := run cfg (pk_setup k) in
+  let '(s', outs) := produce cfg (pk_env k) s0 broker1 (pk_req k) in
+  (if pk_have_codes k then list_eqb (list_eqb Z.eqb) (map (map fst) outs) (pk_codes k) else true) &&
+  list_eqb (list_eqb Bool.eqb) (map (map snd) outs) (pk_entered k) &&
+  list_eqb Bool.eqb (map (owns s' broker1) (pk_pool k)) (pk_owns k) &&
+  list_eqb Bool.eqb (map (owns s' broker2) (pk_pool k)) (pk_owns_other k) &&
+  list_eqb Z.eqb
+    (map (fun r => match key_owner cfg s' r with
+                   | None => -1
+                   | Some v => if bytes_eqb v broker1 then 0 else if bytes_eqb v broker2 then 1 else -2
+                   end) (pk_pool k))
+    (pk_keys k).
